@@ -100,6 +100,8 @@ EXTRA = {
  "C07": "Both boxed targets also for N = 2^48 one-byte elements (cannot be allocated) from eleven size_hint behaviours that rule the length out: LengthError / the documented panic must come back without an allocation attempt.",
  "C08": "All operations again on seven lengths spelled by hand with leading zero digits, for u32, drop-tracked and zero-sized elements.",
  "C10": "Zero-sized slices of eight lengths no allocation could have (isize::MAX .. usize::MAX, N*2^48+1, ...) through chunks_from_slice(_mut), slice_from_chunks, into_chunks and from_chunks.",
+ "C13": "Element kinds i8 (all pairs over {0, 127, -128, -1} for N <= 3: byte order is not the order), bool (its slice hash is one write_u8 per element) and a byte with a case-insensitive PartialEq / Ord / Hash of its own, enumerated for small N and in the random pairs.",
+ "C14": "Every case is also formatted with the #, +, - and #03 flags: the digits and nothing else.",
  "C15": "Vec<()> / Box<[()]> of N + 2^16 .. 2^48, usize::MAX and isize::MAX + 1 + N elements through the four fallible conversions.",
  "C16": "A child that returns normally (Ok or Err) after one of its allocation requests was answered with null is a violation (previously read as 'failure index beyond the last allocation').",
  "C17": "A deserializer that answers deserialize_tuple(N) through visit_bytes / visit_byte_buf / visit_borrowed_bytes / visit_str / visit_string / an empty visit_map / visit_unit with every count 0..=N+2: an array may come back only for exactly N elements and must hold them.",
